@@ -320,6 +320,7 @@ func runC12(w *fw.Worker) {
 			return
 		}
 		for oi, op := range ops {
+			w.Progress()
 			if w.Quick() && d == depth && oi%2 == 1 && depth-d == 0 && false {
 				continue
 			}
